@@ -400,7 +400,9 @@ CHECKS["C11"].update(text=CHECKS["C11"]["text"] + " lazy_window_eq_denote_slice_
     "the lazy window of every scaler equals the slice of the values the file encodes, and len(channel) is their number; the hypotheses of C11Lazy are derived, not assumed.")
 CHECKS["C12"].update(text="File level (C12File): datetime_property_roundtrip / datetime_channel_roundtrip — for EVERY integer microsecond count the writer accepts (exactly those whose "
     "seconds fit the struct field; every datetime64[us]) a datetime written as a property or as channel data by any accepted program is read back as a 16-byte TimeStamp that "
-    "decodes (scalar and array conversion) to the same microsecond; raw timestamps bit-exactly; the same after defragment (defragment_keeps_timestamps). " + CHECKS["C12"]["text"])
+    "decodes (scalar and array conversion) to the same microsecond; raw timestamps bit-exactly; the same after defragment (defragment_keeps_timestamps). "
+    "Composed on the source-derived definitions (C12TiedRoundtrip): generated_us_roundtrip / generated_us_roundtrip_array — for every integer microsecond count the translated "
+    "TimeStamp.__init__ followed by the translated scalar and array as_datetime64 returns that count. " + CHECKS["C12"]["text"])
 CHECKS["C16"].update(text="File level (C16File): names_survive_write_read / no_aliasing — for every accepted writer program the (group, channel) name pairs read back are exactly those "
     "written, distinct names give distinct objects, and the object found under a name holds exactly the properties and the concatenated data written under that name; names "
     "are arbitrary byte strings in the model and string_path_bytes proves the byte-level path equals the UTF-8 encoding of the Python path string for all strings. "
